@@ -273,7 +273,19 @@ def body_single_read(case, ctx):
     ctx.nt(a["dt"] != "int64" or len(set(a["lens"])) == 1)
     with np.errstate(all="ignore"):
         operands = []
+        glob0 = (dict(np.get_printoptions()), dict(np.geterr()))
         lib(apply_single_read, x, read, n, operands)
+        glob1 = (dict(np.get_printoptions()), dict(np.geterr()))
+        if repr(glob1) != repr(glob0):
+            # process-wide numpy settings decide how every later result prints / which warnings later operations raise
+            import inspect
+            ok_keys = set(inspect.signature(np.set_printoptions).parameters)
+            try:
+                np.set_printoptions(**{k: v for k, v in glob0[0].items() if k in ok_keys})
+                np.seterr(**glob0[1])
+            except Exception:  # noqa: BLE001 - restoring is best effort; the violation below is what matters
+                pass
+            raise Violation("read-changed-global-numpy-state", read=read, before=repr(glob0)[:300], after=repr(glob1)[:300])
         expect_unchanged(x, rows, a["dt"], "read-changed-content", read=read)
         read2 = case.get("read2")
         if read2 is not None:
@@ -302,7 +314,7 @@ def single_read_case(draw, tier):
     dt = draw(st.sampled_from(gen.ALL_DT))
     mode = draw(st.integers(0, 3))
     if mode == 0:      # uniform row lengths (every row its own reduction / rectangular)
-        L = draw(st.sampled_from([1, 1, 1, 2, 3, 0]))
+        L = draw(st.sampled_from([1, 1, 1, 2, 3, 0, 40]))       # 40: rows wider than one printed line
         lens = [L] * draw(st.sampled_from([1, 1, 2, 3, 4, 5]))
         a = {"lens": lens, "dt": dt, "vals": draw(gen.flat_values(dt, sum(lens), specials=False))}
     else:
